@@ -41,4 +41,16 @@ Next ==
             \* a client attached before the first packet starts with the first relevant one
             /\ Ok(Late(e) \/ it = <<>> \/ \A n \in 1..first - 1 : ~Relevant(e.proto, pubs[n]), e, "C01:transport-early-client-misses-the-beginning")
 AllConsumed == TLCGet("stats").diameter = Len(Trace) + 1
+(* multicast players (driver TestMulticast; they share one proxy consumer; datagrams cannot be received in the sandbox):
+     [e |-> "mcast-end", t, players_ok, consumers_while_playing, closed: <<BOOLEAN>>]    the publisher left: was each player's connection closed?
+     [e |-> "mcast-leave", t, players_ok, consumers_after_first_left, second_still_connected]   the first of two players left *)
+McastNext ==
+  /\ l < Len(Trace) /\ l' = l + 1 /\ pubs' = pubs
+  /\ LET e == Trace[l'] IN
+     CASE e.e = "mcast-end" ->
+            IF e.players_ok /\ \A i \in 1..Len(e.closed) : e.closed[i] THEN TRUE
+            ELSE PrintT(<<"@BAD", ToJson([line |-> l', t |-> e.t, why |-> "C03:multicast-player-not-closed-when-the-stream-ends", ev |-> e])>>)
+       [] e.e = "mcast-leave" ->
+            IF e.players_ok /\ e.consumers_after_first_left >= 1 /\ e.second_still_connected THEN TRUE
+            ELSE PrintT(<<"@BAD", ToJson([line |-> l', t |-> e.t, why |-> "C01:multicast-delivery-stops-for-the-others-when-the-first-player-leaves", ev |-> e])>>)
 ================================================================================
